@@ -5,7 +5,7 @@
         the single-set corollary.  See DESIGN.md for what remains assumed. *)
 From Coq Require Import Reals List ZArith.
 From Coquelicot Require Import Coquelicot.
-From PMH Require Import Lib.ListArr Model.ProbMinHash Proofs.ProbMinHash Gen.PmhFormulas Proofs.PmhLaw Model.Estimators Gen.EstPmh Proofs.Estimators.
+From PMH Require Import Lib.ListArr Model.ProbMinHash Proofs.ProbMinHash Gen.PmhFormulas Gen.PmhFormulasSrc Proofs.PmhFormulasSrc Proofs.PmhLaw Model.Estimators Gen.EstPmh Proofs.Estimators.
 Import ListNotations.
 
 (* (i) *)
@@ -54,6 +54,15 @@ Theorem C01_estimator_is_match_fraction : forall a b, length a = length b ->
   est_run est_jaccard_compute_probminhash_jaccard a b = EstOk (count_eq a b) (length a).
 Proof. exact (fun a b H => est_exact est_jaccard_compute_probminhash_jaccard a b (eq_refl true) H). Qed.
 
+(* the rate and the increments as the source text writes them (Gen/PmhFormulasSrc.v, read off the Rust expressions on every
+   run) are the formulas the theorems above are stated on, for every signature length the constructors accept *)
+Theorem C01_source_rates_are_the_proved_rate : forall m, 1 < m ->
+  pmh_lambda_src_1 m = pmh_lambda m /\ pmh_lambda_src_2 m = pmh_lambda m /\ pmh_lambda_src_3 m = pmh_lambda m.
+Proof. intros m H. exact (conj (pmh_lambda_src_1_ok m H) (conj (pmh_lambda_src_2_ok m H) (pmh_lambda_src_3_ok m H))). Qed.
+
+Theorem C01_source_increment_is_the_proved_increment : forall m i, i + 1 < m -> pmh2_beta_src m i = pmh2_beta m i.
+Proof. exact pmh2_beta_src_ok. Qed.
+
 Print Assumptions C01_signature_is_argmin.
 Print Assumptions C01_pmh3_reaches_final.
 Print Assumptions C01_pmh3a_reaches_final.
@@ -65,3 +74,5 @@ Print Assumptions C01_race_integral.
 Print Assumptions C01_race_limit.
 Print Assumptions C01_single_set.
 Print Assumptions C01_estimator_is_match_fraction.
+Print Assumptions C01_source_rates_are_the_proved_rate.
+Print Assumptions C01_source_increment_is_the_proved_increment.
